@@ -363,3 +363,11 @@ def early(xs):
         return xs[0]
     finally:
         xs.append(9)
+
+
+def oracle(x):
+    return x
+
+
+def broken_dep(x):
+    return oracle(x) + 1
